@@ -3,6 +3,7 @@ package swarms
 import (
 	"bytes"
 	"context"
+	"errors"
 	"fmt"
 	"sync"
 	"testing"
@@ -147,6 +148,7 @@ func TestC09MTU(t *testing.T) {
 		for _, r := range recs {
 			recsBefore = append(recsBefore, r.SizeRejections())
 		}
+		sendStart := time.Now()
 		sctx, scf := context.WithTimeout(context.Background(), 10*time.Second)
 		var sendErr error
 		if useAsk {
@@ -175,6 +177,10 @@ func TestC09MTU(t *testing.T) {
 				// this is the only message in flight: here "sendable intact" means that it arrives.
 				ev.Class(sub, "reliable-stack")
 				if sendErr != nil {
+					if ev.Stalled(sendStart) && errors.Is(sendErr, context.DeadlineExceeded) {
+						ev.Class(sub, "not-judged:deadline-on-stalled-machine")
+						return
+					}
 					fail("%s of %d bytes <= MTU() %d over a reliable stack failed: %v", verb, L, mtu, sendErr)
 				}
 				if !ev.Patient(5*time.Second, func() bool { return have(e.Data) }) {
